@@ -24,7 +24,7 @@ use rustc_middle::mir::{
     self, AggregateKind, BasicBlock, Body, Const, Operand, Place, ProjectionElem, Rvalue,
     StatementKind, TerminatorKind, UnwindAction,
 };
-use rustc_middle::ty::print::{with_crate_prefix, with_no_trimmed_paths};
+use rustc_middle::ty::print::{with_crate_prefix, with_no_trimmed_paths, with_no_visible_paths};
 use rustc_middle::ty::{self, Instance, Ty, TyCtxt, TypeVisitableExt, TypingEnv};
 use rustc_span::{ExpnKind, Span};
 
@@ -94,11 +94,11 @@ fn jbool(b: bool) -> String {
 // ---------------------------------------------------------------- helpers
 
 fn path_of(tcx: TyCtxt<'_>, did: DefId) -> String {
-    with_crate_prefix!(with_no_trimmed_paths!(tcx.def_path_str(did)))
+    with_crate_prefix!(with_no_visible_paths!(with_no_trimmed_paths!(tcx.def_path_str(did))))
 }
 
 fn ty_str(ty: Ty<'_>) -> String {
-    with_crate_prefix!(with_no_trimmed_paths!(format!("{}", ty)))
+    with_crate_prefix!(with_no_visible_paths!(with_no_trimmed_paths!(format!("{}", ty))))
 }
 
 struct Ctx<'tcx> {
@@ -208,7 +208,7 @@ impl<'tcx> Ctx<'tcx> {
         let mut v: Vec<(&'static str, String)> = Vec::new();
         v.push(("path", js(&path_of(tcx, did))));
         v.push(("name", js(&tcx.opt_item_name(did).map(|s| s.to_string()).unwrap_or_default())));
-        let gargs = with_crate_prefix!(with_no_trimmed_paths!(format!("{:?}", args)));
+        let gargs = with_crate_prefix!(with_no_visible_paths!(with_no_trimmed_paths!(format!("{:?}", args))));
         v.push(("gargs", js(&gargs)));
         let mut trait_path = None;
         let mut self_ty = None;
@@ -271,7 +271,7 @@ impl<'tcx> Ctx<'tcx> {
         let ty = c.ty();
         let mut v: Vec<(&str, String)> = Vec::new();
         v.push(("ty", js(&ty_str(ty))));
-        let dbg = with_crate_prefix!(with_no_trimmed_paths!(format!("{}", c)));
+        let dbg = with_crate_prefix!(with_no_visible_paths!(with_no_trimmed_paths!(format!("{}", c))));
         v.push(("dbg", js(&dbg)));
         // fn item?
         match ty.kind() {
@@ -759,7 +759,7 @@ impl<'tcx> Ctx<'tcx> {
             if let Some(tr) = tcx.impl_opt_trait_ref(did) {
                 let tr = tr.skip_binder();
                 v.push(("trait", js(&path_of(tcx, tr.def_id))));
-                let trs = with_crate_prefix!(with_no_trimmed_paths!(format!("{:?}", tr)));
+                let trs = with_crate_prefix!(with_no_visible_paths!(with_no_trimmed_paths!(format!("{:?}", tr))));
                 v.push(("trait_ref", js(&trs)));
                 let header = tcx.impl_trait_header(did);
                 v.push(("polarity", js(&format!("{:?}", header.polarity))));
